@@ -379,3 +379,55 @@ func (la *LockAnalysis) Edges() (edges []LockEdge, self []LockEdge) {
 	}
 	return
 }
+
+// sameHold: a and b lie in one function and no path from a to b (that does not pass a again)
+// releases the lock `id` (Unlock / RUnlock called directly; deferred releases run at the return and
+// do not count): what was read at a under the lock is still true at b.
+func (m *Model) sameHold(a, b ssa.Instruction, id string) bool {
+	if a.Parent() != b.Parent() {
+		return false
+	}
+	isRelease := func(in ssa.Instruction) bool {
+		call, ok := in.(*ssa.Call)
+		if !ok {
+			return false
+		}
+		op, ok := m.lockOpOf(&call.Call)
+		return ok && op.ID == id && (op.Kind == "Unlock" || op.Kind == "RUnlock")
+	}
+	// forward walk from a; state: released or not; stop at a (fresh read) and at b
+	type st struct {
+		b   *ssa.BasicBlock
+		rel bool
+	}
+	seen := map[st]bool{}
+	bad := false
+	var walk func(blk *ssa.BasicBlock, from int, rel bool)
+	walk = func(blk *ssa.BasicBlock, from int, rel bool) {
+		for i := from; i < len(blk.Instrs); i++ {
+			in := blk.Instrs[i]
+			if in == b {
+				if rel {
+					bad = true
+				}
+				return
+			}
+			if in == a {
+				return
+			}
+			if isRelease(in) {
+				rel = true
+			}
+		}
+		for _, s := range liveSuccs(blk) {
+			k := st{s, rel}
+			if seen[k] {
+				continue
+			}
+			seen[k] = true
+			walk(s, 0, rel)
+		}
+	}
+	walk(a.Block(), instrIndex(a)+1, false)
+	return !bad
+}
